@@ -53,57 +53,11 @@ def check_case(doc, obs, tag='random'):
         obs.count('byte_identical')
         return
     # attribute the difference
-    mech, detail = attribute(data, want, secs, layout)
+    mech, detail = common.attribute(data, want, secs, layout)
     if mech is None:
         obs.count('tolerance:json_spelling')
         return
     obs.violation('noncanonical:%s' % mech, doc, detail)
-
-
-def attribute(data, want, secs, layout):
-    """Where do writer bytes and oracle bytes part? Returns (mechanism,
-    detail); (None, None) when the only difference is JSON spelling."""
-    if len(secs) != len(layout):
-        return 'section_count', {'got': [s['id'] for s in secs],
-                                 'want': [s['id'] for s in layout]}
-    only_json = True
-    for i, (s, w) in enumerate(zip(secs, layout)):
-        if s['id'] != w['id']:
-            return 'section_id', {'index': i, 'got': s['id'],
-                                  'want': w['id']}
-        hgot = data[s['hoff']:data.index(b'\n', s['hoff']) + 1]
-        hwant = want[w['hoff']:w['hoff'] + w['hlen']]
-        go = dict(s['options'])
-        wo = dict(w['options'])
-        if w['kind'] == 'meta':
-            # compare header modulo length, content by JSON denotation
-            go.pop('length', None)
-            wo.pop('length', None)
-            if go != wo:
-                return 'header_options', {'index': i, 'got': hgot,
-                                          'want': hwant}
-            raw_w = want[w['coff']:w['coff'] + w['clen']]
-            if s.get('raw') != raw_w:
-                try:
-                    a = s['raw'].decode(s['codec'])
-                    b = raw_w.decode(w['codec'])
-                except Exception:
-                    return 'meta_bytes', {'index': i}
-                if not jsoncanon.same_layout(a, b):
-                    return 'meta_json_layout', {'index': i, 'got': a[:300],
-                                                'want': b[:300]}
-            continue
-        if hgot != hwant:
-            return 'header_bytes', {'index': i, 'got': hgot, 'want': hwant}
-        if w['kind'] != 'container':
-            raw_w = want[w['coff']:w['coff'] + w['clen']]
-            if s.get('raw') != raw_w:
-                return '%s_content_bytes' % w['kind'], {
-                    'index': i, 'got': s.get('raw', b'')[:200],
-                    'want': raw_w[:200]}
-    if only_json:
-        return None, None
-    return 'bytes', {}
 
 
 def stress_doc(rng):
